@@ -102,13 +102,16 @@ func (u *upstream) Serve() {
 	}()
 	wg.Wait()
 
-	// stop all clients
+	// stop all clients. The lock is not held meanwhile: Stop waits for the
+	// client's goroutines, and its reader may be following a redirection
+	// to a node without a connection, which takes the lock to create one
+	// (it gives up there, the upstream has quit).
 	u.clientsMu.Lock()
 	clients := u.loadClients()
+	u.clientsMu.Unlock()
 	for _, c := range clients {
 		c.Stop()
 	}
-	u.clientsMu.Unlock()
 	close(u.done)
 }
 
